@@ -108,6 +108,9 @@ impl<'a> io::Read for NestReader<'a> {
         }
         self.inner.read(buf)
     }
+    fn read_vectored(&mut self, bufs: &mut [io::IoSliceMut<'_>]) -> io::Result<usize> {
+        self.inner.read_vectored(bufs)
+    }
 }
 
 fn make_world(part: &StreamPart) -> Shared {
